@@ -28,7 +28,7 @@ use smartcore::linalg::{BaseMatrix, BaseVector, Matrix};
 use smartcore::linear::logistic_regression::{
     LogisticRegression, LogisticRegressionParameters, LogisticRegressionSolverName,
 };
-use smartcore::verif::{Backtracking, FirstOrderOptimizer, FunctionOrder, LBFGS};
+use smartcore::verif::{Backtracking, FirstOrderOptimizer, FunctionOrder, GradientDescent, LBFGS};
 use std::cell::RefCell;
 use vutil::*;
 
@@ -421,6 +421,202 @@ fn gen_lbfgs(path: &str, only: Option<usize>) {
     }
     let n = out.finish();
     println!("lbfgs: {} events, {} timeouts", n, timeouts);
+}
+
+
+// ------------------------------------------------------------------------------------------
+// plain gradient descent on quadratics (supplementary: not part of a listed property; the
+// events are validated against spec/linear/GradDescent*.tla and a mismatch is reported as
+// information, never as a violation of C09)
+// ------------------------------------------------------------------------------------------
+
+/// iteration budget of the "full" gradient-descent runs (the library default of 10 000 would make
+/// the event file needlessly long; truncated budgets 1..4 come from the case generator)
+const GD_FULL: usize = 300;
+
+struct GdOutcome {
+    status: &'static str,
+    /// gradient calls: (point, f, |g|_2 as the library computes it)
+    calls: Vec<(Vec<f64>, f64, f64)>,
+    nf_at: Vec<usize>,
+    nf: usize,
+    ret: Option<(Vec<f64>, f64, usize)>,
+    gtol: f64,
+}
+
+fn norm2(v: &[f64]) -> f64 {
+    // same fold as BaseVector::norm2 of DenseMatrix: sqrt of the running sum of squares
+    let mut s = 0.0f64;
+    for x in v {
+        s += x * x;
+    }
+    s.sqrt()
+}
+
+fn run_gd(c: &QuadCase) -> GdOutcome {
+    let d = c.d;
+    let s = (2.0f64).powi(c.fscale);
+    let mf: Vec<f64> = c.m.iter().map(|v| *v as f64 * s).collect();
+    let bf: Vec<f64> = c.b.iter().map(|v| *v * s).collect();
+    let fval = |x: &[f64]| -> f64 {
+        let mut q = 0.0;
+        for i in 0..d {
+            let mut row = 0.0;
+            for j in 0..d {
+                row += mf[i * d + j] * x[j];
+            }
+            q += x[i] * (0.5 * row - bf[i]);
+        }
+        q
+    };
+    let gval = |x: &[f64]| -> Vec<f64> {
+        (0..d)
+            .map(|i| {
+                let mut row = 0.0;
+                for j in 0..d {
+                    row += mf[i * d + j] * x[j];
+                }
+                row - bf[i]
+            })
+            .collect()
+    };
+    let log: RefCell<(Vec<(Vec<f64>, f64, f64)>, Vec<usize>, usize)> = RefCell::new((vec![], vec![], 0));
+    let pt = |x: &DenseMatrix<f64>| -> Vec<f64> { (0..d).map(|j| x.get(0, j)).collect() };
+    let f = |x: &DenseMatrix<f64>| -> f64 {
+        log.borrow_mut().2 += 1;
+        fval(&pt(x))
+    };
+    let df = |g: &mut DenseMatrix<f64>, x: &DenseMatrix<f64>| {
+        let p = pt(x);
+        let gv = gval(&p);
+        for (j, v) in gv.iter().enumerate() {
+            g.set(0, j, *v);
+        }
+        let mut l = log.borrow_mut();
+        let nf = l.2;
+        l.1.push(nf);
+        let fv = fval(&p);
+        l.0.push((p, fv, norm2(&gv)));
+    };
+    let mut opt: GradientDescent<f64> = Default::default();
+    opt.max_iter = if c.max_iter >= 1000 { GD_FULL } else { c.max_iter };
+    // the tolerance as the optimiser computes it from its parameters and the start
+    let gtol = (norm2(&c.x0) * opt.g_rtol).max(opt.g_atol);
+    let ls: Backtracking<f64> = Backtracking {
+        order: if c.third { FunctionOrder::THIRD } else { FunctionOrder::SECOND },
+        ..Default::default()
+    };
+    let x0 = DenseMatrix::row_vector_from_array(&c.x0);
+    let r = guard(|| opt.optimize(&f, &df, &x0, &ls));
+    let (status, ret) = match r {
+        Ok(res) => ("ok", Some((pt(&res.x), res.f_x, res.iterations))),
+        Err(_) => ("panic", None),
+    };
+    let (mut calls, nf_at, nf) = log.into_inner();
+    if let Some((x, _, _)) = &ret {
+        let gv = gval(x);
+        calls.push((x.clone(), fval(x), norm2(&gv)));
+    }
+    GdOutcome { status, calls, nf_at, nf, ret, gtol }
+}
+
+fn gd_events(run: i64, c: &QuadCase, o: &GdOutcome) -> Vec<Value> {
+    let mut ev = vec![];
+    let has_ret = o.ret.is_some();
+    let ncalls = if has_ret { o.calls.len() - 1 } else { o.calls.len() };
+    // one gradient call per iterate: call 0 is the start, call k the point after k steps
+    let mut fvals: Vec<f64> = o.calls.iter().map(|c| c.1).filter(|v| v.is_finite()).collect();
+    if let Some((_, fx, _)) = &o.ret {
+        if fx.is_finite() {
+            fvals.push(*fx);
+        }
+    }
+    let franks = dense_ranks(&fvals);
+    let frank = |v: f64| -> i64 {
+        if !v.is_finite() {
+            return 0;
+        }
+        franks[fvals.iter().position(|w| *w == v).unwrap()]
+    };
+    // gradient norms and the tolerance share one rank pool: comparisons between them are exact
+    let mut gvals: Vec<f64> = o.calls.iter().map(|c| c.2).filter(|v| v.is_finite()).collect();
+    gvals.push(o.gtol);
+    let granks = dense_ranks(&gvals);
+    let grank = |v: f64| -> i64 {
+        if !v.is_finite() {
+            return 2_000_000;
+        }
+        granks[gvals.iter().position(|w| *w == v).unwrap()]
+    };
+    let max_iter = if c.max_iter >= 1000 { GD_FULL } else { c.max_iter };
+    for k in 0..ncalls {
+        let (_, fv, gn) = &o.calls[k];
+        if k == 0 {
+            ev.push(json!({"run": run, "ev": "Start", "dim": c.d, "cond": c.cond, "family": c.family,
+                "maxIter": max_iter, "order": if c.third {"third"} else {"second"}, "fscale": c.fscale,
+                "fFin": fv.is_finite(), "fRk": frank(*fv), "gFin": gn.is_finite(), "gRk": grank(*gn),
+                "gtolRk": grank(o.gtol), "gEx": if *gn == 0.0 { -2000 } else if gn.is_finite() { bin_exp(*gn) } else { 2000 }}));
+        } else {
+            let nfk = o.nf_at[k] - o.nf_at[k - 1];
+            ev.push(json!({"run": run, "ev": "Iter", "k": k, "fFin": fv.is_finite(), "fRk": frank(*fv),
+                "gFin": gn.is_finite(), "gRk": grank(*gn), "nF": nfk}));
+        }
+    }
+    match &o.ret {
+        Some((x, fx, iters)) => {
+            let (_, fr, gr) = &o.calls[ncalls];
+            let last = if ncalls > 0 { Some(&o.calls[ncalls - 1].0) } else { None };
+            ev.push(json!({"run": run, "ev": "Stop", "status": o.status, "iters": iters, "gradCalls": ncalls,
+                "fEvals": o.nf, "retFFin": fr.is_finite(), "retFRk": frank(*fr), "retGFin": gr.is_finite(),
+                "retGRk": grank(*gr), "retIsLast": last.map(|l| l == x).unwrap_or(false),
+                "fxFin": fx.is_finite(), "fxRk": frank(*fx),
+                "retGEx": if *gr == 0.0 { -2000 } else if gr.is_finite() { bin_exp(*gr) } else { 2000 }}));
+        }
+        None => {
+            ev.push(json!({"run": run, "ev": "Stop", "status": o.status, "iters": 0, "gradCalls": ncalls,
+                "fEvals": o.nf, "retFFin": false, "retFRk": 0, "retGFin": false, "retGRk": 2_000_000,
+                "retIsLast": false, "fxFin": false, "fxRk": 0, "retGEx": 2000}));
+        }
+    }
+    ev
+}
+
+/// the L-BFGS case generator restricted to condition numbers plain gradient descent can handle
+fn gen_gd(path: &str) {
+    let mut out = Out::create(path);
+    let mut r = rng(10);
+    let n = if thorough() { 2400 } else { 600 };
+    let mut done = 0;
+    let mut idx = 0;
+    let mut timeouts = 0;
+    while done < n {
+        let c = gen_quad(&mut r, idx);
+        idx += 1;
+        if c.cond > 16 {
+            continue;
+        }
+        done += 1;
+        let run = done as i64;
+        let c2 = c.clone();
+        match watchdog(30, move || run_gd(&c2)) {
+            Some(Ok(o)) => {
+                for e in gd_events(run, &c, &o) {
+                    out.emit(e);
+                }
+            }
+            _ => {
+                timeouts += 1;
+                out.emit(json!({"run": run, "ev": "Start", "dim": c.d, "cond": c.cond, "family": c.family,
+                    "maxIter": c.max_iter, "order": if c.third {"third"} else {"second"}, "fscale": c.fscale,
+                    "fFin": false, "fRk": 0, "gFin": false, "gRk": 2_000_000, "gtolRk": 0, "gEx": 2000}));
+                out.emit(json!({"run": run, "ev": "Stop", "status": "timeout", "iters": 0, "gradCalls": 0,
+                    "fEvals": 0, "retFFin": false, "retFRk": 0, "retGFin": false, "retGRk": 2_000_000,
+                    "retIsLast": false, "fxFin": false, "fxRk": 0, "retGEx": 2000}));
+            }
+        }
+    }
+    let n = out.finish();
+    println!("gd: {} events, {} timeouts", n, timeouts);
 }
 
 
@@ -1008,6 +1204,7 @@ fn main() {
     match mode {
         "gen-lbfgs" => gen_lbfgs(path, None),
         "gen-logit" => gen_logit_file(path, None),
+        "gen-gd" => gen_gd(path),
         // rerun-* <out> <run>: execute again the case that produced run number <run>
         "rerun-lbfgs" => gen_lbfgs(path, Some(arg(args, 2).parse::<usize>().expect("run number") - 1)),
         "rerun-logit" => gen_logit_file(path, Some(arg(args, 2).parse::<usize>().expect("run number") - 1)),
